@@ -325,6 +325,25 @@ func cmdMsg(o opts) {
 				d.enc(di, v2, true, "full_small")
 				d.enc(di, v2, false, "full_small")
 			}
+			// floats travel bit for bit: signalling NaN patterns (a float32 -> float64 -> float32 detour quiets them)
+			for i, s := range sh {
+				if s.isStr || (d.defs[di].Fields[i].GoKind != "float32" && d.defs[di].Fields[i].GoKind != "float64") {
+					continue
+				}
+				vals := cloneVals(zero)
+				for k := range vals[i] {
+					if s.gosize == 4 {
+						vals[i][k] = B{byte(1 + k), 0x00, 0xA0, 0x7F}
+						if k%2 == 1 {
+							vals[i][k] = B{0xC0, 0xB4, 0xB3, 0xFF}
+						}
+					} else {
+						vals[i][k] = B{byte(1 + k), 0, 0, 0, 0, 0, 0xF4, 0x7F}
+					}
+				}
+				d.enc(di, vals, true, "snan")
+				d.enc(di, vals, false, "snan")
+			}
 			// one field (and array element) at a time, distinct non-zero bytes; others zero
 			for i, s := range sh {
 				var elems []int
